@@ -125,7 +125,7 @@ CLAIMED = {
    ref='DESIGN.md section 2, C03'),
  'C09': dict(level='proof',
    text='Clauses proved on the MIR: (RI-3) Ukkonen::find_all_end clears and refills both reused DP columns on every path before the iterator is built, Matches::next never resizes them; (EF-2) for both instantiations of impl_myers! distance/find_all_end/find_best_end take &self and the Myers types cannot hold interior mutability; (PO-5) every panic / overflow obligation of the block-based column update (long::States::{new,add_state,step}, advance_block, ceil_div, word_size) is discharged or audited - this found max_dist + w overflowing for the usize::MAX that distance()/find_best_end() pass (wrong distances in release builds), repaired in /repo; (SB-11) both Myers constructors set the own bit of a pattern symbol on every iteration of the per-symbol loop, whatever the ambiguity table contains; (CF-1) in Ukkonen every store into the DP column is dominated by the call of the user cost function; (TB-12) find_best_end keeps the first minimum (min_by_key or a strict comparison). That reported distances equal the edit-distance definition (bit-vector arithmetic, block activation logic, delegated crates) is NOT decided.',
-   note='Trusted: rustc MIR, extractor, RI engine; Vec::clear semantics.',
+   note='Trusted: rustc MIR, extractor, RI engine, interval engine and the audited tables PO5_AUDIT (rules/c09.py) and PO10_AUDIT (rules/round5.py): manual proof sketches keyed by function/kind/normalised operands; any change of that arithmetic must be re-audited and is reported until then. Vec::clear semantics; the external crates triple_accel / editdistancek compute the metric their function names say.',
    technique='static analysis: must-reset dataflow and receiver/Freeze effect analysis over rustc MIR',
    ref='DESIGN.md section 2, C09'),
  'C10': dict(level='proof',
